@@ -26,21 +26,28 @@ def fail(node, why):
     raise Unsupported('%s: line %s: %s' % (why, getattr(node, 'lineno', '?'), ast.dump(node)[:300]))
 
 
-KINDS = {'potentials': 'fdict', 'beliefs': 'fdict', 'messages': 'mdict', 'logZ': 'flag'}
+FUNCS = {
+    'belief_propagation': dict(params=[('potentials', 'fdict'), ('logZ', 'flag')], locals={'beliefs': 'fdict', 'messages': 'mdict'}, sumret=True),
+    # GraphicalModel.mle: `variables` is the set of attributes seen so far; set order is irrelevant (projection / subtraction are by name)
+    'mle': dict(params=[('marginals', 'fdict')], locals={'potentials': 'fdict', 'variables': 'aset'}, sumret=False),
+}
+KINDS = {}
 
 
 class Tr:
-    def __init__(self):
+    def __init__(self, fname='belief_propagation', sumret=True):
         self.n = 0
         self.aux = []
+        self.fname = fname
+        self.sumret = sumret
 
-    def loopdef(self, pat, item, body, env, loopvars=()):
+    def loopdef(self, pat, item, body, env, loopvars=(), carried=()):
         """emit the loop body as a named definition; returns the term applying it to the captured variables."""
         import re
         self.n += 1
-        name = 'belief_propagation_loop%d' % self.n
-        caps = [n for n, k in env.items() if not n.startswith('dom:') and n not in loopvars and k in ('scalar', 'factor', 'attrs', 'clique') and re.search(r'\bv_%s\b' % re.escape(n), body)]
-        ty = {'scalar': 'car R', 'factor': '@trie R', 'attrs': 'list nat', 'clique': 'nat'}
+        name = '%s_loop%d' % (self.fname, self.n)
+        caps = [n for n, k in env.items() if not n.startswith('dom:') and n not in loopvars and n not in carried and k in ('scalar', 'factor', 'attrs', 'clique', 'fdict', 'mdict', 'aset') and re.search(r'\bv_%s\b' % re.escape(n), body)]
+        ty = {'scalar': 'car R', 'factor': '@trie R', 'attrs': 'list nat', 'clique': 'nat', 'fdict': 'list (@trie R)', 'mdict': 'list ((nat * nat) * @trie R)', 'aset': 'list nat'}
         params = ''.join(' (v_%s : %s)' % (n, ty[env[n]]) for n in caps)
         if re.search(r'\btotal\b', body):
             params = ' (total : car R)' + params
@@ -100,6 +107,12 @@ class Tr:
                 if isinstance(a, ast.Attribute) and isinstance(a.value, ast.Name) and a.value.id == 'self' and a.attr == 'total':
                     return '(s_log total)', 'scalar', None
                 fail(e, 'np.log of something other than self.total')
+            if isinstance(f, ast.Name) and f.id == 'tuple' and len(e.args) == 1 and not e.keywords and isinstance(e.args[0], ast.BinOp) and isinstance(e.args[0].op, ast.BitAnd):
+                l, r = e.args[0].left, e.args[0].right
+                if isinstance(l, ast.Name) and env.get(l.id) == 'aset' and isinstance(r, ast.Call) and isinstance(r.func, ast.Name) and r.func.id == 'set' \
+                        and len(r.args) == 1 and isinstance(r.args[0], ast.Name) and env.get(r.args[0].id) == 'clique':
+                    return '(py_inter (scope v_%s) v_%s)' % (r.args[0].id, l.id), 'attrs', None
+                fail(e, 'unsupported set intersection')
             if isinstance(f, ast.Name) and f.id == 'CliqueVector' and len(e.args) == 1 and not e.keywords and isinstance(e.args[0], ast.Name) and env.get(e.args[0].id) == 'fdict':
                 return 'v_' + e.args[0].id, 'fdict', None
             if isinstance(f, ast.Attribute):
@@ -113,6 +126,13 @@ class Tr:
                 x, xk, xd = self.ex(f.value, env)
                 if xk != 'factor':
                     fail(e, 'method call on a non-factor')
+                if f.attr == 'log' and not e.args and not e.keywords:
+                    return '(f_log %s)' % x, 'factor', xd
+                if f.attr == 'project' and len(e.args) == 1 and not e.keywords:
+                    a, ak, _ = self.ex(e.args[0], env)
+                    if ak != 'attrs' or xd is None:
+                        fail(e, 'project onto a non-attribute-list / of a factor whose domain is not known')
+                    return '(f_project %s %s %s)' % (x, xd, a), 'factor', a
                 if f.attr == 'copy' and not e.args and not e.keywords:
                     return '(f_copy %s)' % x, 'factor', xd
                 if f.attr == 'logsumexp' and not e.keywords and len(e.args) == 1:
@@ -160,6 +180,9 @@ class Tr:
             elif isinstance(s, ast.For):
                 for n in self.assigned(s.body):
                     if n not in out: out.append(n)
+            elif isinstance(s, ast.Expr) and isinstance(s.value, ast.Call) and isinstance(s.value.func, ast.Attribute) and s.value.func.attr == 'update' \
+                    and isinstance(s.value.func.value, ast.Name):
+                if s.value.func.value.id not in out: out.append(s.value.func.value.id)
             elif isinstance(s, (ast.Return, ast.Expr)):
                 pass
             else:
@@ -197,6 +220,13 @@ class Tr:
             if isinstance(s.value, ast.Dict) and not s.value.keys and isinstance(t, ast.Name) and KINDS.get(t.id) == 'mdict':
                 env2 = dict(env); env2[t.id] = 'mdict'
                 return '(let v_%s := py_empty in\n  %s)' % (t.id, cont(env2))
+            if isinstance(s.value, ast.Dict) and not s.value.keys and isinstance(t, ast.Name) and KINDS.get(t.id) == 'fdict':
+                env2 = dict(env); env2[t.id] = 'fdict'
+                return '(let v_%s := py_emptyf ncl in\n  %s)' % (t.id, cont(env2))
+            if isinstance(s.value, ast.Call) and isinstance(s.value.func, ast.Name) and s.value.func.id == 'set' and not s.value.args and not s.value.keywords \
+                    and isinstance(t, ast.Name) and KINDS.get(t.id) == 'aset':
+                env2 = dict(env); env2[t.id] = 'aset'
+                return '(let v_%s := py_emptyset in\n  %s)' % (t.id, cont(env2))
             if isinstance(s.value, ast.DictComp) and isinstance(t, ast.Name) and KINDS.get(t.id) == 'fdict':
                 dc = s.value
                 g = dc.generators[0]
@@ -214,6 +244,11 @@ class Tr:
                 env2 = dict(env); env2[t.id] = 'clique'
                 return '(let v_%s := %s in\n  %s)' % (t.id, v, cont(env2))
             return self.store(t, v, vk, vd, env, cont)
+        if isinstance(s, ast.Expr) and isinstance(s.value, ast.Call) and isinstance(s.value.func, ast.Attribute) and s.value.func.attr == 'update' \
+                and isinstance(s.value.func.value, ast.Name) and env.get(s.value.func.value.id) == 'aset' and len(s.value.args) == 1 and not s.value.keywords \
+                and isinstance(s.value.args[0], ast.Name) and env.get(s.value.args[0].id) == 'clique':
+            v = s.value.func.value.id
+            return '(let v_%s := py_update v_%s (scope v_%s) in\n  %s)' % (v, v, s.value.args[0].id, cont(env))
         if isinstance(s, ast.AugAssign) and isinstance(s.op, ast.Add):
             cur = ast.BinOp(left=s.target, op=ast.Add(), right=s.value)
             load = ast.parse(ast.unparse(cur), mode='eval').body        # target re-read in Load context
@@ -236,7 +271,7 @@ class Tr:
                 return self.store(s.body[0].targets[0], '(if %s then %s else %s)' % (c, a, b), ak, ad if ad == bd else None, env, cont)
             fail(s, 'unsupported if statement')
         if isinstance(s, ast.For) and not s.orelse:
-            carried = [n for n in self.assigned(s.body) if n in env and env[n] in ('fdict', 'mdict')]
+            carried = [n for n in self.assigned(s.body) if n in env and env[n] in ('fdict', 'mdict', 'aset')]
             if not carried:
                 fail(s, 'loop without carried dictionaries')
             tup = '(' + ', '.join('v_' + n for n in carried) + ')' if len(carried) > 1 else 'v_' + carried[0]
@@ -246,51 +281,58 @@ class Tr:
                 i, j = s.target.elts[0].id, s.target.elts[1].id
                 env2 = dict(env); env2[i] = 'clique'; env2[j] = 'clique'
                 body = self.block(s.body, env2, lambda e: tup)
-                f = self.loopdef(pat, "'(v_%s, v_%s)" % (i, j), body, env, (i, j))
+                f = self.loopdef(pat, "'(v_%s, v_%s)" % (i, j), body, env, (i, j), carried)
                 return "(let %s := fold_left %s message_order %s in\n  %s)" % (pat, f, tup, cont(env))
             if isinstance(s.target, ast.Name) and isinstance(s.iter, ast.Attribute) and isinstance(s.iter.value, ast.Name) and s.iter.value.id == 'self' and s.iter.attr == 'cliques':
                 c = s.target.id
                 env2 = dict(env); env2[c] = 'clique'
                 body = self.block(s.body, env2, lambda e: tup)
-                f = self.loopdef(pat, 'v_%s' % c, body, env, (c,))
+                f = self.loopdef(pat, 'v_%s' % c, body, env, (c,), carried)
                 return "(let %s := fold_left %s (seq 0 ncl) %s in\n  %s)" % (pat, f, tup, cont(env))
             fail(s, 'unsupported loop')
         if isinstance(s, ast.Return):
             v, vk, _ = self.ex(s.value, env)
             if vk != 'fdict':
-                fail(s, 'final return must be the dictionary of beliefs')
-            return 'inr %s' % v
+                fail(s, 'final return must be a dictionary of factors')
+            return ('inr %s' % v) if self.sumret else v
         fail(s, 'unsupported statement')
 
 
 def translate(src):
+    global KINDS
     tree = ast.parse(open(src).read())
     cls = [n for n in tree.body if isinstance(n, ast.ClassDef) and n.name == 'GraphicalModel']
     if len(cls) != 1:
         raise Unsupported('class GraphicalModel not found')
-    fds = [n for n in cls[0].body if isinstance(n, ast.FunctionDef) and n.name == 'belief_propagation']
-    if len(fds) != 1:
-        raise Unsupported('belief_propagation: expected exactly one definition')
-    fd = fds[0]
-    if [a.arg for a in fd.args.args] != ['self', 'potentials', 'logZ'] or fd.args.vararg or fd.args.kwarg or fd.args.kwonlyargs or fd.decorator_list:
-        fail(fd, 'signature differs from the specification table')
-    env = {'potentials': 'fdict', 'logZ': 'flag'}
-    tr = Tr()
-    body = tr.block(fd.body, env, None)
-    out = ['(* GENERATED by translator/py2gallina_bp.py from %s (GraphicalModel.belief_propagation) - do not edit; regenerated on every check run. *)' % src,
+    out = ['(* GENERATED by translator/py2gallina_bp.py from %s (GraphicalModel.belief_propagation, GraphicalModel.mle) - do not edit; regenerated on every check run. *)' % src,
            'From Coq Require Import List Arith Bool.', 'Import ListNotations.',
            'Require Import PGM.Base.Alg PGM.Base.Sums PGM.Model.BP PGM.Base.PyFactor.', '',
            'Section BPGen.',
            'Variable R : SF.', 'Variable shape : nat -> nat.', 'Variable D : list nat.', 'Variable ncl : nat.',
            'Variable scope : nat -> list nat.', 'Variable sep_axes : nat -> nat -> list nat.',
            'Notation py_get := (@py_get R).', 'Notation py_getm := (@py_getm R).', 'Notation py_haskey := (@py_haskey R).', 'Notation py_set := (@py_set R).',
-           'Notation py_setm := (@py_setm R).', 'Notation py_empty := (@py_empty R).', 'Notation py_dictcomp := (@py_dictcomp R).',
+           'Notation py_setm := (@py_setm R).', 'Notation py_empty := (@py_empty R).', 'Notation py_emptyf := (@py_emptyf R).', 'Notation py_dictcomp := (@py_dictcomp R).',
            'Notation f_add := (@f_add R shape D).', 'Notation f_sub := (@f_sub R shape D).', 'Notation f_scale := (@f_scale R shape D).',
-           'Notation f_logsumexp := (@f_logsumexp R shape D).', 'Notation f_logsumexp_all := (@f_logsumexp_all R shape D).',
-           'Notation f_copy := (@f_copy R).', 'Notation f_exp := (@f_exp R).', 'Notation s_log := (@s_log R).', 'Notation s_sub := (@s_sub R).', '',
-           ] + tr.aux + ['',
-           'Definition belief_propagation (message_order : list (nat * nat)) (total : car R) (v_potentials : list (@trie R)) (v_logZ : bool)',
-           '  : car R + list (@trie R) :=', '  ' + body + '.', '', 'End BPGen.', '']
+           'Notation f_logsumexp := (@f_logsumexp R shape D).', 'Notation f_logsumexp_all := (@f_logsumexp_all R shape D).', 'Notation f_project := (@f_project R shape D).',
+           'Notation f_copy := (@f_copy R).', 'Notation f_exp := (@f_exp R).', 'Notation f_log := (@f_log R).', 'Notation s_log := (@s_log R).', 'Notation s_sub := (@s_sub R).', '']
+    for fname, spec in FUNCS.items():
+        fds = [n for n in cls[0].body if isinstance(n, ast.FunctionDef) and n.name == fname]
+        if len(fds) != 1:
+            raise Unsupported('%s: expected exactly one definition' % fname)
+        fd = fds[0]
+        if [a.arg for a in fd.args.args] != ['self'] + [p for p, _ in spec['params']] or fd.args.vararg or fd.args.kwarg or fd.args.kwonlyargs or fd.decorator_list:
+            fail(fd, 'signature of %s differs from the specification table' % fname)
+        KINDS = dict(spec['locals']); KINDS.update(dict(spec['params']))
+        env = dict(spec['params'])
+        tr = Tr(fname, spec['sumret'])
+        body = tr.block(fd.body, env, None)
+        out += tr.aux
+        if fname == 'belief_propagation':
+            out += ['Definition belief_propagation (message_order : list (nat * nat)) (total : car R) (v_potentials : list (@trie R)) (v_logZ : bool)',
+                    '  : car R + list (@trie R) :=', '  ' + body + '.', '']
+        else:
+            out += ['Definition %s %s : list (@trie R) :=' % (fname, ' '.join('(v_%s : list (@trie R))' % p for p, k in spec['params'])), '  ' + body + '.', '']
+    out += ['End BPGen.', '']
     return '\n'.join(out)
 
 
